@@ -35,7 +35,7 @@ MANIFEST_ENTRY = {
         "advertised with d+drift but served with d; first decode time != 0 gives tfdt = st + t). Float step "
         "timescale_to_timedelta is a model parameter fed with the implementation's value. tfdt 32/64-bit "
         "encoding is proved under C04. Trusted: Lean kernel, harness, driver, mp4walk, shims."),
-    "technique": "Lean 4 proof (least-index characterisation, loop invariants, induction over the timeline loop) + model/implementation correspondence",
+    "technique": "Lean 4 proof (least-index characterisation, loop invariants, induction over the timeline loop) + source-to-Lean translation re-proved equal to the model each run + model/implementation correspondence",
 }
 PROP_FILES = ["DashLive/Props/C02.lean", "DashLive/Props/GenTie.lean", "DashLive/Props/GenTieTimeline.lean", "DashLive/Props/GenTieLiveIndex.lean", "DashLive/Props/Generated.lean"]
 LEAN_TARGETS = ["DashLive.Props.C02", "DashLive.Props.GenTie", "DashLive.Props.GenTieTimeline", "DashLive.Props.GenTieLiveIndex", "DashLive.Props.Generated"]
@@ -52,6 +52,7 @@ def _gen_arith():
 
 GENERATORS = [_gen_arith]
 TRUSTED = [
+    "harness/gen_arith.py, gen_timeline.py, gen_liveindex.py, pytolean.py: Python source text -> Lean translation of get_segment_index, generateSegmentTimeline and the media handler index calculation (semantics of the accepted subset, see DESIGN 4); Props/GenTie*.lean prove the translated definitions equal to the model",
     "harness/mp4walk.py (independent box walker), harness/mp4synth.py (synthetic media), /verif/shims",
     "timescale_to_timedelta (float) is a parameter of the model; its value comes from the implementation",
 ]
